@@ -13,6 +13,7 @@ ASSUMPTIONS = ["guard callees do what their names say (trusted base listed in co
 def run(ctx):
     P = 'C15'
     sig.s15_4_version_alignment_verify(ctx, P)
+    sig.s15_4_alignment_predicate(ctx, P)
     sig.s15_8_hash_strength_verify(ctx, P)
     sig.s15_5_version_alignment_sign(ctx, P)
     sig.s02_6_backsig(ctx, P)
